@@ -27,8 +27,10 @@ type e2eIface struct {
 	log  *dispatchLog
 }
 
-func (s *e2eIface) VarlinkGetName() string        { return "org.example.e2e" }
-func (s *e2eIface) VarlinkGetDescription() string { return "interface org.example.e2e\nmethod M() -> ()\n" }
+func (s *e2eIface) VarlinkGetName() string { return "org.example.e2e" }
+func (s *e2eIface) VarlinkGetDescription() string {
+	return "interface org.example.e2e\nmethod M() -> ()\n"
+}
 func (s *e2eIface) VarlinkDispatch(ctx context.Context, c varlink.Call, method string) error {
 	var raw json.RawMessage
 	rec := "\x00absent"
